@@ -167,7 +167,12 @@ impl Stream for RtrListener {
                     this.server_metrics,
                 ) {
                     Ok(stream) => Poll::Ready(Some(Ok(stream))),
-                    Err(_) => Poll::Pending,
+                    Err(_) => {
+                        // Nothing has registered the waker, so make sure
+                        // we get polled again to accept the next one.
+                        ctx.waker().wake_by_ref();
+                        Poll::Pending
+                    }
                 }
             }
             Poll::Ready(Err(err)) => {
